@@ -10,6 +10,7 @@ CONSTANTS
   Delay = 2
   Known = {"F14"}
   F1Fixed = FALSE
+  Idc <- MCIdc
   Parties = 3
 VIEW View
 INVARIANTS
